@@ -181,6 +181,18 @@ PROPS["C16"] = {
 }
 
 
+PROPS["C17"] = {
+    "level": "exploration",
+    "engine": "enumeration + Python differential",
+    "level_text": "SHA-256 digests for every message length 0..300 (quick 0..160) with four kinds of content, every two-way chunking of every length <=130 (exhaustive sub-space), sampled two/three-way chunkings with empty chunks up to 300, sampled lengths up to 70000, hasher reuse after finalize() and reset(), HMAC for every key length 0..200 x boundary message lengths and random pairs; each result is compared with Python's hashlib / hmac",
+    "level_note": "trusted: CPython's hashlib.sha256 and hmac as the FIPS 180-4 / RFC 2104 reference, the record format of harness/c17_sha.cpp, ASan on exactly sized input copies",
+    "technique": "enumerated and sampled inputs with a differential oracle (Python hashlib/hmac)",
+    "rule": "harness/c17_sha.cpp enumerates the computations listed above (content from a PRNG seeded by VERIF_SEED) and prints one record each; oracle/c17.py recomputes every digest. Non-trivial = a record whose message length, chunk boundary or key length lies within +-1 of a multiple of 64 or of the 56 byte padding threshold; distinct by record text.",
+    "assumptions": ["CPython hashlib/hmac are correct"],
+    "parts": [{"name": "sha", "kind": "custom", "module": "c17", "tiers": {"quick": {}, "thorough": {}}}],
+}
+
+
 # property modules kept in separate files (props_cXX.py define PROPS["CXX"] using the helpers above)
 import glob as _glob, os as _os
 for _f in sorted(_glob.glob(_os.path.join(_os.path.dirname(_os.path.abspath(__file__)), "props_c*.py"))):
